@@ -133,3 +133,6 @@ def fill(ENV):
     ENV['datetime'] = dt.datetime_env
     from . import structmodel
     ENV['struct'] = structmodel.struct_env
+    from . import bitmodel
+    ENV['bitstring'] = bitmodel.bitstring_env
+    ENV['crccheck.crc'] = bitmodel.crc_env
